@@ -30,6 +30,7 @@ ASSUMPTIONS = [
     'demanded then)',
     'trajectory top altitude >= 6 km (MEEM low-profile NaN is finding C12-meem-nan-low-top-altitude)',
     'configurations that are refused by name (see C11) are counted, not judged',
+    'HC/CO certification data have an idle->approach log-log slope within +-12 (see C12)',
 ]
 SHARD_TIMEOUT = {'quick': 900, 'thorough': 5400}
 LEVEL_TEXT = ('Exploration: runtime postcondition (independent re-summation) on the real '
